@@ -145,6 +145,17 @@ func (c *ctx) e2e(nRandom int, tag string) {
 	for i, e := range pols {
 		outs[i] = types.SiacoinOutput{Address: modelAddress(e.p), Value: types.Siacoins(uint32(1 + i%7))}
 	}
+	// unlock conditions whose (only) ed25519 key is not 32 bytes long: the real key followed by further bytes. What such
+	// a key means is not stated anywhere, but the unlock-conditions policy is the v2 way of spending the very outputs
+	// v1 transactions spend with these conditions: the two must agree on a spend signed by the real key.
+	var oddUCs []types.UnlockConditions
+	for _, tail := range [][]byte{{0x07}, c.m.pub[1][:], make([]byte, 8)} {
+		k := append(append([]byte(nil), c.m.pub[0][:]...), tail...)
+		oddUCs = append(oddUCs, types.UnlockConditions{PublicKeys: []types.UnlockKey{{Algorithm: types.SpecifierEd25519, Key: k}}, SignaturesRequired: 1})
+	}
+	for _, uc := range oddUCs {
+		outs = append(outs, types.SiacoinOutput{Address: uc.UnlockHash(), Value: types.Siacoins(3)})
+	}
 	var states []consensus.State
 	var elems [][]types.SiacoinElement // per state
 	failed := b.Guard("C14/e2e/chain-construction", func() any { return "building the e2e chain" }, func() {
@@ -271,6 +282,39 @@ func (c *ctx) e2e(nRandom int, tag string) {
 			default:
 				b.Inconclusive("e2e: transaction refused for a reason unrelated to the policy: " + trunc(err.Error(), 80))
 			}
+		}
+	}
+	for k, uc := range oddUCs {
+		h := nBlocks - 1
+		s := states[h]
+		if len(elems[h]) < len(pols)+len(oddUCs) {
+			break
+		}
+		el := elems[h][len(pols)+k]
+		if el.SiacoinOutput.Address != uc.UnlockHash() {
+			b.Inconclusive("e2e: odd-key element order unexpected")
+			break
+		}
+		v1 := types.Transaction{SiacoinInputs: []types.SiacoinInput{{ParentID: el.ID, UnlockConditions: uc}}, SiacoinOutputs: []types.SiacoinOutput{{Address: types.VoidAddress, Value: el.SiacoinOutput.Value}},
+			Signatures: []types.TransactionSignature{{ParentID: types.Hash256(el.ID), CoveredFields: types.CoveredFields{WholeTransaction: true}}}}
+		sg := c.m.priv[0].SignHash(s.WholeSigHash(v1, v1.Signatures[0].ParentID, 0, 0, nil))
+		v1.Signatures[0].Signature = sg[:]
+		v2 := types.V2Transaction{SiacoinInputs: []types.V2SiacoinInput{{Parent: el.Copy(), SatisfiedPolicy: types.SatisfiedPolicy{Policy: types.SpendPolicy{Type: types.PolicyTypeUnlockConditions(uc)}}}},
+			SiacoinOutputs: []types.SiacoinOutput{{Address: types.VoidAddress, Value: el.SiacoinOutput.Value}}}
+		v2.SiacoinInputs[0].SatisfiedPolicy.Signatures = []types.Signature{c.m.priv[0].SignHash(s.InputSigHash(v2))}
+		var e1, e2 error
+		if b.Guard("C14/e2e/odd-length-key", func() any { return fmt.Sprintf("key of %d bytes", len(uc.PublicKeys[0].Key)) }, func() {
+			e1 = consensus.ValidateTransaction(consensus.NewMidState(s), v1, consensus.V1TransactionSupplement{SiacoinInputs: []types.SiacoinElement{el.Copy()}})
+			e2 = consensus.ValidateV2Transaction(consensus.NewMidState(s), v2)
+		}) {
+			continue
+		}
+		b.Eval(1)
+		b.Count("e2e_unlock_conditions_spent_both_ways", 1)
+		b.Distinct("e2e", "uc-odd-key", len(uc.PublicKeys[0].Key), e1 == nil, e2 == nil)
+		if (e1 == nil) != (e2 == nil) {
+			b.Violate(fmt.Sprintf("C14/e2e/unlock-conditions-judged-differently-by-v1-and-v2/ed25519-key-of-%d-bytes", len(uc.PublicKeys[0].Key)),
+				fmt.Sprintf("an output held by unlock conditions listing a %d-byte ed25519 key (the real key plus %d bytes), spent with a signature of the real key: the v1 transaction gives %v, the v2 transaction through the unlock-conditions policy gives %v", len(uc.PublicKeys[0].Key), len(uc.PublicKeys[0].Key)-32, e1, e2), nil)
 		}
 	}
 	b.Count("e2e_chains", 1)
